@@ -7,3 +7,19 @@ Local Open Scope Z_scope.
 Lemma tie_generated_getshort : forall (buf : Z -> Z) (p : Z), 0 <= buf p < 256 -> 0 <= buf (p + 1) < 256 ->
   retval (C_getshort.run 1 [buf p; buf (p + 1)] 0) = Some (DnsParse.getshort buf p).
 Proof. exact gen_getshort_eq. Qed.
+(* the byte/str/case/fmt/scan library as generated from today's sources = the list functions it is meant to be
+   (Tie/Gen_strings.v: byte_copy and byte_copyr touch exactly n cells, byte_zero, str_rchr, str_start, case_starts,
+   case_diffs, scan_8long, fmt_str, fmt_uint, fmt_uint0) *)
+From NQ Require Tie.Gen_strings Tie.Gen_numbers Tie.Gen_tables.
+Lemma tie_generated_byte_copy : forall (dst src : list Z) (n : nat), zbytes_ok src -> (n <= length dst)%nat -> (n <= length src)%nat -> Z.of_nat n < 2 ^ 32 ->
+  option_map (fun r => C_byte_copy.a_to (snd r)) (C_byte_copy.run (S n) dst 0 (Z.of_nat n) src 0) = Some (firstn n src ++ skipn n dst).
+Proof. exact Gen_strings.gen_byte_copy_eq. Qed.
+Lemma tie_generated_byte_copyr : forall (dst src : list Z) (n : nat), zbytes_ok src -> (n <= length dst)%nat -> (n <= length src)%nat -> Z.of_nat n < 2 ^ 32 ->
+  option_map (fun r => C_byte_copyr.a_to (snd r)) (C_byte_copyr.run (S n) dst 0 (Z.of_nat n) src 0) = Some (firstn n src ++ skipn n dst).
+Proof. exact Gen_strings.gen_byte_copyr_eq. Qed.
+Lemma tie_generated_byte_zero : forall (a : list Z) (n : nat), (n <= length a)%nat -> Z.of_nat n < 2 ^ 32 ->
+  option_map (fun r => C_byte_zero.a_s (snd r)) (C_byte_zero.run (S n) a 0 (Z.of_nat n)) = Some (repeat 0 n ++ skipn n a).
+Proof. exact Gen_strings.gen_byte_zero_eq. Qed.
+Definition generated_library_equalities := (Gen_strings.gen_str_rchr_eq, Gen_strings.gen_str_start_eq, Gen_strings.gen_case_starts_eq,
+  Gen_strings.gen_case_diffs_eq, Gen_strings.gen_scan_8long_eq, Gen_strings.gen_fmt_str_eq, Gen_strings.gen_fmt_str_len,
+  Gen_strings.gen_fmt_uint_len, Gen_strings.gen_fmt_uint0_eq, Gen_numbers.gen_fmt_ulong_eq, Gen_numbers.gen_str_chr_eq).
